@@ -9,7 +9,7 @@ Facts extracted (by `ast`, fail closed):
   cleanup_resolution_failure          inner handler: remove_models_from_repositories(models, models); raise
   model_processors_on_cached          internal_model_from_file runs the model processors also on a model taken from the
                                       global repository (false: only inside the `if not model:` block)
-  cleanup_model_processor_failure     internal_model_from_file removes the models loaded by the call when a model
+  cleanup_model_processor_failure     internal_model_from_file AND model_from_str (string main models) remove the models loaded by the call when a model
                                       processor raises on a freshly loaded main model
 The bodies of the small repository functions the Coq model transcribes (load_model, remove_model,
 remove_models_from_repositories, update_model_in_repo_based_on_filename, get_included_models,
@@ -243,6 +243,13 @@ def translate():
     need("self._tx_model_repository.all_models[filename] = other_model" in it and
          "other_model._tx_model_repository = GlobalModelRepository(self._tx_model_repository.all_models)" in it, "metamodel callback no longer registers the model")
     need(_has(it, "if self._tx_model_repository.all_models.has_model(file_name): model = self._tx_model_repository.all_models[file_name]"), "global cache lookup changed")
+    # the cache of the metamodel's own global repository is consulted for EVERY load through this metamodel (main loads
+    # and imports arriving with a callback alike): the lookup is a direct child of the `hasattr` block
+    gblk = [x for x in imf.body if isinstance(x, ast.If) and ast.unparse(x.test) == "hasattr(self, '_tx_model_repository')"]
+    need(len(gblk) == 1 and not gblk[0].orelse, "global repository block of internal_model_from_file not found")
+    need(any(isinstance(x, ast.If) and ast.unparse(x.test) == "self._tx_model_repository.all_models.has_model(file_name)"
+             and _text(x.body) == "model = self._tx_model_repository.all_models[file_name]" and not x.orelse for x in gblk[0].body),
+         "the global cache lookup is no longer unconditional inside the global repository block (e.g. only for loads without a callback)")
     loop_txt = "for p in self._model_processors:\n    p(model, self)"
     # the loop is either at the end of the function (every returned model, also one taken from the global
     # repository, is processed) or inside the `if not model:` block (only freshly loaded models are processed)
@@ -278,6 +285,34 @@ def translate():
         k_c, k_l, k_m = it.find("cached_ids = {id(m)"), it.find("get_model_from_str("), it.find("loaded_models = [m for m")
         need(0 <= k_c < k_l < k_m, "cached models must be recorded before the load and the loaded ones after it")
         cleanup_mp = mht == want
+
+    # ---------------- metamodel.py: model_from_str without a file name (main model loaded from a string)
+    mfs = find_func(mmtree, "model_from_str", cls="TextXMetaModel")
+    sblk = [x for x in ast.walk(mfs) if isinstance(x, ast.If) and ast.unparse(x.test) == "file_name is None"]
+    need(len(sblk) == 1, "model_from_str: `if file_name is None:` block not found")
+    st = _text(sblk[0].body)
+    need("get_model_from_str(model_str, debug=debug, pre_ref_resolution_callback=kwargs_callback)" in st, "model_from_str: load call changed")
+    s_loops, s_tries = _loops(sblk[0].body)
+    need(len(s_loops) + len(s_tries) == 1, "model_from_str: model processor loop not found")
+    if s_loops:
+        cleanup_mp_str = False
+    else:
+        sh = _bare_handler(s_tries[0])
+        need(sh is not None, "model_from_str: model processor handler is not a single bare except")
+        sht = _text(sh.body)
+        want_s = ("if hasattr(model, '_tx_model_repository'):\n    from textx.scoping import get_included_models, remove_models_from_repositories\n"
+                  "    loaded_models = [m for m in get_included_models(model) if id(m) not in cached_ids]\n"
+                  "    remove_models_from_repositories(loaded_models, loaded_models)\nraise")
+        need(sht in (want_s, "raise"), "model_from_str: model processor handler changed: " + sht)
+        need(0 <= st.find("cached_ids = {id(m) for m in self._tx_model_repository.all_models}") < st.find("get_model_from_str("),
+             "model_from_str: cached models must be recorded before the load")
+        cleanup_mp_str = sht == want_s
+    # the invented repository names of models without a file name are distinct: first free 'anonymousN'
+    need(_has(upd, "i = 0 while f'anonymous{i}' in self.all_models.filename_to_model: i += 1 myfilename = f'anonymous{i}' self.all_models[myfilename] = model"),
+         "update_model_in_repo_based_on_filename: choice of the invented name changed")
+    need(_has(upd, "if model._tx_filename is None: for fn in self.all_models.filename_to_model: if self.all_models.filename_to_model[fn] == model: return fn"),
+         "update_model_in_repo_based_on_filename: search for an already registered model without file name changed")
+    cleanup_mp = cleanup_mp and cleanup_mp_str
 
     def b(x):
         return "true" if x else "false"
